@@ -568,6 +568,21 @@ func (e *specEnv) evalCall(n ECall) Val {
 			e.fail("callcount(name) needs a path state")
 		}
 		return Val{S: itoa(e.st.ncalls[exprString(n.Args[0])]), Sort: "Int"}
+	case "lasterr":
+		// lasterr(f): the error (last result) of the most recent call of f on this path; nil if f was not called
+		if e.st == nil || len(n.Args) != 1 {
+			e.fail("lasterr(name) needs a path state")
+		}
+		if v, ok := e.st.lastRet[exprString(n.Args[0])]; ok {
+			if len(v.Fs) > 0 && v.Fs[len(v.Fs)-1].Sort == "Iface" {
+				return v.Fs[len(v.Fs)-1]
+			}
+			if v.Sort == "Iface" {
+				return v
+			}
+			e.fail("lasterr(%s): the function does not return an error", exprString(n.Args[0]))
+		}
+		return Val{S: "(mk-iface 0 0)", Sort: "Iface"}
 	case "lastresult":
 		// lastresult(f): what the most recent call of f on this path returned (false if f was not called: use with called(f))
 		if e.st == nil || len(n.Args) < 1 || len(n.Args) > 2 {
